@@ -26,6 +26,15 @@
 #define QNEWEST(c) WRAPQ(EQ(c), (int)EQ(c)->rd + (EQ(c)->count > 0 ? (int)EQ(c)->count - 1 : 0))
 #define QUEUE_FRAME(c) EQ(c)->wr, EQ(c)->count; (EQ(c)->count < EQ(c)->size): EQ(c)->data[EQ(c)->wr]; (EQ(c)->count == EQ(c)->size && EQ(c)->wr > 0): EQ(c)->data[EQ(c)->wr - 1]; (EQ(c)->count == EQ(c)->size && EQ(c)->wr == 0): EQ(c)->data[EQ(c)->size - 1]
 
+/* what callers of SCPI_ErrorPush need: exactly one error with this code was queued (or the overflow
+ * marker, if the queue was full), or nothing was queued */
+#define PUSHED_ONE(c, code) (OLD(EQ(c)->count) < EQ(c)->size ? (EQ(c)->count == OLD(EQ(c)->count) + 1 && QLAST(c).error_code == (code)) \
+    : (EQ(c)->count == EQ(c)->size && QLAST(c).error_code == SCPI_ERROR_QUEUE_OVERFLOW))
+#define NO_PUSH(c) (EQ(c)->count == OLD(EQ(c)->count) && EQ(c)->wr == OLD(EQ(c)->wr) && (c)->cmd_error == OLD((c)->cmd_error))
+#define ERRPUSH_FRAME(c) REGS_ALL(c), (c)->cmd_error, GHOST_SRQ, GHOST_ERRCB, GHOST_FREE, gh_dup_len, QUEUE_FRAME(c)
+/* everything SCPI_ErrorPush requires of the context beyond its own allocation */
+#define CTX_ERRQ_OK(c) (QPRE(EQ(c)) && COH_REGS(c) && COH_QMA(c) && GH_RANGES)
+
 void SCPI_ErrorInit(scpi_t * context, scpi_error_t * data, int16_t size)
 __CPROVER_requires(__CPROVER_is_fresh(context, sizeof(*context)))
 __CPROVER_assigns(context->error_queue)
